@@ -39,7 +39,7 @@ def cases(tier, seed):
         out.append({"mode": "inputs", "net": gen.with_inputs(rng, base, k), "cls": "inputs", "rs": rng.randrange(1 << 30)})
     for f in gen.models_up_to(mmax):
         out.append({"mode": "model", "model": f, "cls": "model", "rs": rng.randrange(1 << 30), "deadline": mdead})
-        if tier != "quick" or gen.model_sizes()[f] <= 12:
+        if gen.model_sizes()[f] <= (12 if tier == "quick" else 14):
             out.append({"mode": "model-inputs", "model": f, "cls": "model", "rs": rng.randrange(1 << 30), "deadline": mdead})
     return out
 
